@@ -245,6 +245,8 @@ func runScripts(o *hx.Out, r *hx.Rand, n int, allowBad bool) {
 					}
 					msgs = append(msgs, fmt.Sprint(m.Count))
 				}
+				// what the call options hold once the stream has ended, before Header() is asked (again)
+				ph1, ph2, ph3 := h1, h2, h3
 				hdr, _ := cs.Header()
 				tlr := cs.Trailer()
 				call.wait()
@@ -254,7 +256,7 @@ func runScripts(o *hx.Out, r *hx.Rand, n int, allowBad bool) {
 				}
 				runtime.KeepAlive(cs)
 				same := func(a, b metadata.MD) bool { return pairsOf(a, known) == pairsOf(b, known) }
-				optsOK := same(h1, hdr) && same(h2, hdr) && same(h3, hdr) && same(t1, tlr) && same(t2, tlr)
+				optsOK := same(ph1, hdr) && same(ph2, hdr) && same(ph3, hdr) && same(h1, hdr) && same(t1, tlr) && same(t2, tlr)
 				var st []string
 				for _, h := range script {
 					st = append(st, h.coq())
@@ -539,7 +541,61 @@ func checked(o *hx.Out, kind string, id int, ok bool, desc map[string]interface{
 }
 
 // a unary HTTP reply whose body is cut short must be reported as an error, wherever the cut falls
-func truncatedUnaryReplies(o *hx.Out) {
+func truncatedUnaryReplies(o *hx.Out) { truncatedUnaryRepliesTo(o, checked) }
+
+// a response message that cannot be encoded: the handler ignores the failed send, sends more and returns
+// nil; the client must not be told the call succeeded unless it received every message
+func unencodableResponses(o *hx.Out) {
+	bad := func() *hx.Msg { return &hx.Msg{Count: 2, Headers: map[string][]byte{"bad key \xff\xfe": []byte("v")}} }
+	svc := &hx.Svc{
+		Unary: func(ctx context.Context, req *hx.Msg) (*hx.Msg, error) { return bad(), nil },
+		Stream: func(kind string, ss grpc.ServerStream) error {
+			for {
+				if err := ss.RecvMsg(&hx.Msg{}); err != nil {
+					break
+				}
+			}
+			if kind == "CS" {
+				ss.SendMsg(bad())
+				return nil
+			}
+			ss.SendMsg(&hx.Msg{Count: 1})
+			ss.SendMsg(bad())
+			ss.SendMsg(&hx.Msg{Count: 3})
+			return nil
+		},
+	}
+	id := 0
+	for _, t := range bothTransports(svc) {
+		out := &hx.Msg{}
+		err := t.ch.Invoke(context.Background(), "/verif.Svc/U", &hx.Msg{}, out)
+		ok := err != nil || proto.Equal(out, bad())
+		d := map[string]interface{}{"transport": t.name, "kind": "unary", "response": "a message the codec cannot encode (map key that is not UTF-8)", "error": fmt.Sprint(err)}
+		if !ok {
+			o.Violate("an unencodable unary response was reported as success without the message", d, "nil error", "an error")
+		}
+		id++
+		checked(o, "unencodable_response", id, ok, d)
+		for _, kind := range []string{"SS", "BD", "CS"} {
+			want := 3
+			if kind == "CS" {
+				want = 1
+			}
+			got, err := halfDuplex(t.ch, kind, []*hx.Msg{{}})
+			ok := err != nil || len(got) == want
+			d := map[string]interface{}{"transport": t.name, "kind": kind, "handler_sent": want, "one_of_them": "cannot be encoded; the handler ignores the send error and returns nil",
+				"client_received": len(got), "error": fmt.Sprint(err)}
+			if !ok {
+				o.Violate("a stream that lost an unencodable response ended for the client as a success", d, len(got), want)
+			}
+			id++
+			checked(o, "unencodable_response", id, ok, d)
+		}
+		t.stop()
+	}
+}
+
+func truncatedUnaryRepliesTo(o *hx.Out, emit func(o *hx.Out, kind string, id int, ok bool, desc map[string]interface{})) {
 	full, _ := proto.Marshal(&hx.Msg{Count: 7, Payload: []byte("abcdef"), Code: 3, Headers: map[string][]byte{"k": []byte("v")}})
 	base, _ := url.Parse("http://replay.invalid/")
 	for k := 0; k < len(full); k++ {
@@ -562,7 +618,7 @@ func truncatedUnaryReplies(o *hx.Out) {
 			if !ok {
 				o.Violate("a unary reply that was cut short was reported as success", d, "nil error", "an error")
 			}
-			checked(o, "truncated_unary_reply", k, ok, d)
+			emit(o, "truncated_unary_reply", k, ok, d)
 		}
 	}
 }
@@ -656,6 +712,7 @@ func init() {
 		runUnaryStatus(o, r, n)
 		runStreamStatus(o, r, n)
 		truncatedUnaryReplies(o)
+		unencodableResponses(o)
 		ltsCases(o, r, profile{name: "status", rounds: [2]int{5, 14}, cancel: 10, handlerEnd: 60, headers: 20, kinds: []string{"BD", "SS", "CS"}, returnCodes: []int64{0, 5, 13, -1, 2, 14}}, n)
 		o.Finding = "finding_case"
 		o.Shard = 60
